@@ -229,6 +229,8 @@ impl PacketHeader {
                  && data@.len() >= 7 + rest@.len()
                  && (forall|i: int| 0 <= i < rest@.len() ==> rest@[i] == data@[7 + i]),
             data@.len() >= 5 && data@[4] < 0x80 ==> r is Ok,
+            (data@.len() >= 7 && data@[4] >= 0x80 && spec_cmd_of(data@[4] & 0x7f).is_some()
+                && (data@[5] as usize * 256 + data@[6] as usize <= 57 ==> data@.len() >= 7 + data@[5] as usize * 256 + data@[6] as usize)) ==> r is Ok,
     {
         proof { assert(forall|b: u8| (b & (1u8 << 7) == (1u8 << 7)) <==> b >= 0x80u8) by(bit_vector); }
         // must be at least the length of a continuation header
@@ -413,6 +415,7 @@ impl Message {
         ensures
             final(self).channel == old(self).channel, final(self).command == old(self).command, final(self).payload_len == old(self).payload_len,
             r is Err ==> final(self).wf() && final(self).payload@ == old(self).payload@,
+            header.seq != old(self).sequence ==> r is Err && final(self).sequence == old(self).sequence,
             r matches Ok(false) ==> final(self).wf(),
             r matches Ok(done) ==> {
                 let rem = old(self).payload_len - old(self).payload@.len();
@@ -451,6 +454,47 @@ impl Message {
         }
     }
 }
+pub open spec fn pay_at(m: Message, off: int, src: Seq<u8>, from: int, n: int) -> bool {
+    forall|i: int| 0 <= i < n ==> m.payload@[off + i] == #[trigger] src[from + i]
+}
+// relation between old table, a 64-byte packet, new table and result (pointwise form of the protocol step)
+pub open spec fn step_rel(t: Map<u32, Message>, p: Seq<u8>, t2: Map<u32, Message>, r: Option<Message>) -> bool
+    recommends p.len() == 64
+{
+    let ch = spec_u32_from_ne(p.subrange(0, 4));
+    let l = p[5] as int * 256 + p[6] as int;
+    if p[4] >= 0x80 {
+        match spec_cmd_of(p[4] & 0x7f) {
+            None => t2 =~= t && r.is_none(),
+            Some(c) =>
+                if l <= 57 {
+                    t2 =~= t && (r matches Some(m) && m.channel == ch && m.command == c && m.sequence == 0 && m.payload_len == l
+                        && m.payload@.len() == l && pay_at(m, 0, p, 7, l))
+                } else {
+                    r.is_none() && t2.dom() =~= t.dom().insert(ch) && (forall|k: u32| k != ch && t.contains_key(k) ==> t2[k] == t[k])
+                    && ({ let m = t2[ch]; m.channel == ch && m.command == c && m.sequence == 0 && m.payload_len == l
+                        && m.payload@.len() == 57 && pay_at(m, 0, p, 7, 57) })
+                }
+        }
+    } else if !t.contains_key(ch) { t2 =~= t && r.is_none() }
+    else {
+        let m0 = t[ch];
+        if p[4] != m0.sequence { r.is_none() && t2.dom() =~= t.dom() && (forall|k: u32| k != ch && t.contains_key(k) ==> t2[k] == t[k]) && t2[ch].payload@ == m0.payload@ && t2[ch].sequence == m0.sequence && t2[ch].payload_len == m0.payload_len }
+        else {
+            let rem = m0.payload_len - m0.payload@.len();
+            if rem <= 59 {
+                t2 =~= t.remove(ch) && (r matches Some(m) && m.channel == ch && m.command == m0.command && m.sequence == m0.sequence + 1
+                    && m.payload_len == m0.payload_len && m.payload@.len() == m0.payload_len
+                    && pay_at(m, 0, m0.payload@, 0, m0.payload@.len() as int) && pay_at(m, m0.payload@.len() as int, p, 5, rem))
+            } else {
+                r.is_none() && t2.dom() =~= t.dom() && (forall|k: u32| k != ch && t.contains_key(k) ==> t2[k] == t[k])
+                && ({ let m = t2[ch]; m.channel == ch && m.command == m0.command && m.sequence == m0.sequence + 1
+                    && m.payload_len == m0.payload_len && m.payload@.len() == m0.payload@.len() + 59
+                    && pay_at(m, 0, m0.payload@, 0, m0.payload@.len() as int) && pay_at(m, m0.payload@.len() as int, p, 5, 59) })
+            }
+        }
+    }
+}
 pub open spec fn table_wf(t: Map<u32, Message>) -> bool { forall|c: u32| t.contains_key(c) ==> (#[trigger] t[c]).wf() && t[c].channel == c }
 pub struct ChannelHandler {
     channels: HashMap<u32, Message>,
@@ -465,6 +509,7 @@ impl ChannelHandler {
                  final(self).table().contains_key(c) == old(self).table().contains_key(c)
                  && (old(self).table().contains_key(c) ==> final(self).table()[c] == old(self).table()[c])),
             packet@.len() < 5 ==> r.is_none() && final(self).table() == old(self).table(),
+            packet@.len() == 64 ==> step_rel(old(self).table(), packet@, final(self).table(), r),
             (packet@.len() >= 5 && packet@[4] < 0x80 && !old(self).table().contains_key(spec_u32_from_ne(packet@.subrange(0, 4)))) ==> r.is_none() && final(self).table() == old(self).table(),
     {
         let (header, payload) = PacketHeader::try_from(packet).ok()?;
@@ -495,5 +540,163 @@ impl ChannelHandler {
         }
     }
 }
+// ---------------- property-level spec and lemmas (C16) ----------------
+pub open spec fn pad64(s: Seq<u8>) -> Seq<u8> { s + Seq::new((64 - s.len()) as nat, |i: int| 0u8) }
+pub open spec fn be16(n: int) -> Seq<u8> { seq![(n / 256) as u8, (n % 256) as u8] }
+pub open spec fn min_int(a: int, b: int) -> int { if a < b { a } else { b } }
+// first packet of a message, as the property states it
+pub open spec fn init_pkt(ch: u32, c: Command, p: Seq<u8>) -> Seq<u8> {
+    pad64(spec_u32_to_ne(ch) + seq![0x80u8 | spec_cmd_byte(c)] + be16(p.len() as int) + p.subrange(0, min_int(p.len() as int, 57)))
+}
+// k-th continuation packet
+pub open spec fn cont_pkt(ch: u32, k: int, p: Seq<u8>) -> Seq<u8> {
+    pad64(spec_u32_to_ne(ch) + seq![k as u8] + p.subrange(57 + 59 * k, min_int(p.len() as int, 57 + 59 * (k + 1))))
+}
+pub proof fn lemma_cmd_roundtrip(c: Command)
+    ensures spec_cmd_of((0x80u8 | spec_cmd_byte(c)) & 0x7f) == Some(c), (0x80u8 | spec_cmd_byte(c)) >= 0x80
+{
+    let b = spec_cmd_byte(c);
+    assert(b < 0x80 ==> ((0x80u8 | b) & 0x7f == b && (0x80u8 | b) >= 0x80)) by(bit_vector);
+}
+pub proof fn lemma_init_step(t: Map<u32, Message>, ch: u32, c: Command, p: Seq<u8>, t2: Map<u32, Message>, r: Option<Message>)
+    requires p.len() <= 0xffff, step_rel(t, init_pkt(ch, c, p), t2, r),
+    ensures
+        p.len() <= 57 ==> t2 =~= t && (r matches Some(m) && m.channel == ch && m.command == c && m.payload@ =~= p && m.payload_len == p.len()),
+        p.len() > 57 ==> r.is_none() && t2.contains_key(ch) && t2[ch].channel == ch && t2[ch].command == c && t2[ch].sequence == 0
+             && t2[ch].payload_len == p.len() && t2[ch].payload@ =~= p.subrange(0, 57)
+             && (forall|k: u32| k != ch && t.contains_key(k) ==> t2.contains_key(k) && t2[k] == t[k])
+             && (forall|k: u32| k != ch && t2.contains_key(k) ==> t.contains_key(k)),
+{
+    broadcast use axiom_ne_roundtrip;
+    let pk = init_pkt(ch, c, p);
+    lemma_cmd_roundtrip(c);
+    assert(pk.len() == 64);
+    assert(pk.subrange(0, 4) =~= spec_u32_to_ne(ch));
+    assert(pk[4] == 0x80u8 | spec_cmd_byte(c));
+    let l = p.len() as int;
+    assert(pk[5] == (l / 256) as u8 && pk[6] == (l % 256) as u8);
+    assert(pk[5] as int * 256 + pk[6] as int == l);
+    if p.len() <= 57 {
+        let m = r.unwrap();
+        assert forall|i: int| 0 <= i < l implies m.payload@[i] == p[i] by { assert(m.payload@[0 + i] == pk[7 + i]); }
+    } else {
+        let m = t2[ch];
+        assert forall|i: int| 0 <= i < 57 implies m.payload@[i] == p[i] by { assert(m.payload@[0 + i] == pk[7 + i]); }
+        assert forall|k: u32| k != ch && t2.contains_key(k) implies t.contains_key(k) by { assert(t2.dom().contains(k)); assert(t.dom().insert(ch).contains(k)); }
+        assert forall|k: u32| k != ch && t.contains_key(k) implies t2.contains_key(k) && t2[k] == t[k] by { assert(t.dom().insert(ch).contains(k)); assert(t2.dom().contains(k)); }
+    }
+}
+// state of the reassembly for channel ch after the init packet and j continuation packets
+pub open spec fn partial(t: Map<u32, Message>, ch: u32, c: Command, p: Seq<u8>, j: int) -> bool {
+    t.contains_key(ch) && t[ch].channel == ch && t[ch].command == c && t[ch].sequence == j && t[ch].payload_len == p.len()
+        && 57 + 59 * j < p.len() && t[ch].payload@ =~= p.subrange(0, 57 + 59 * j)
+}
+pub open spec fn others_same(t: Map<u32, Message>, t2: Map<u32, Message>, ch: u32) -> bool {
+    (forall|k: u32| #![trigger t.contains_key(k)] k != ch && t.contains_key(k) ==> t2.contains_key(k) && t2[k] == t[k])
+    && (forall|k: u32| #![trigger t2.contains_key(k)] k != ch && t2.contains_key(k) ==> t.contains_key(k))
+}
+pub proof fn lemma_others_trans(a: Map<u32, Message>, b: Map<u32, Message>, c: Map<u32, Message>, ch: u32)
+    requires others_same(a, b, ch), others_same(b, c, ch),
+    ensures others_same(a, c, ch),
+{
+    assert forall|k: u32| k != ch && a.contains_key(k) implies c.contains_key(k) && c[k] == a[k] by { assert(b.contains_key(k) && b[k] == a[k]); }
+    assert forall|k: u32| k != ch && c.contains_key(k) implies a.contains_key(k) by { assert(b.contains_key(k)); }
+}
+pub proof fn lemma_cont_step(t: Map<u32, Message>, ch: u32, c: Command, p: Seq<u8>, j: int, t2: Map<u32, Message>, r: Option<Message>)
+    requires p.len() <= 0xffff, 0 <= j < 128, partial(t, ch, c, p, j), step_rel(t, cont_pkt(ch, j, p), t2, r),
+    ensures
+        others_same(t, t2, ch),
+        p.len() - (57 + 59 * j) <= 59 ==> !t2.contains_key(ch) && (r matches Some(m) && m.channel == ch && m.command == c && m.payload@ =~= p && m.payload_len == p.len()),
+        p.len() - (57 + 59 * j) > 59 ==> r.is_none() && partial(t2, ch, c, p, j + 1),
+{
+    broadcast use axiom_ne_roundtrip;
+    let pk = cont_pkt(ch, j, p);
+    let a = 57 + 59 * j;
+    assert(pk.len() == 64);
+    assert(pk.subrange(0, 4) =~= spec_u32_to_ne(ch));
+    assert(pk[4] == j as u8);
+    assert(pk[4] < 0x80);
+    let m0 = t[ch];
+    let rem = p.len() - a;
+    if rem <= 59 {
+        let m = r.unwrap();
+        assert forall|i: int| 0 <= i < p.len() implies m.payload@[i] == p[i] by {
+            if i < a { assert(m.payload@[0 + i] == m0.payload@[0 + i]); }
+            else { assert(m.payload@[a + (i - a)] == pk[5 + (i - a)]); }
+        }
+        assert forall|k: u32| k != ch && t.contains_key(k) implies t2.contains_key(k) && t2[k] == t[k] by { assert(t.remove(ch).contains_key(k)); }
+        assert forall|k: u32| k != ch && t2.contains_key(k) implies t.contains_key(k) by { assert(t.remove(ch).contains_key(k)); }
+    } else {
+        let m = t2[ch];
+        assert(t2.dom().contains(ch));
+        assert forall|i: int| 0 <= i < a + 59 implies m.payload@[i] == p[i] by {
+            if i < a { assert(m.payload@[0 + i] == m0.payload@[0 + i]); }
+            else { assert(m.payload@[a + (i - a)] == pk[5 + (i - a)]); }
+        }
+        assert forall|k: u32| k != ch && t.contains_key(k) implies t2.contains_key(k) && t2[k] == t[k] by { assert(t.dom().contains(k)); assert(t2.dom().contains(k)); }
+        assert forall|k: u32| k != ch && t2.contains_key(k) implies t.contains_key(k) by { assert(t2.dom().contains(k)); assert(t.dom().contains(k)); }
+    }
+}
+pub open spec fn n_cont(len: int) -> int { if len <= 57 { 0 } else { (len - 57 + 58) / 59 } }
+pub open spec fn packets_of(ch: u32, c: Command, p: Seq<u8>) -> Seq<Seq<u8>> {
+    Seq::new((1 + n_cont(p.len() as int)) as nat, |i: int| if i == 0 { init_pkt(ch, c, p) } else { cont_pkt(ch, i - 1, p) })
+}
+// ts[i] --pk[i]--> ts[i+1] yielding rs[i], each step related by handle_packet's postcondition
+pub open spec fn is_run(ts: Seq<Map<u32, Message>>, pk: Seq<Seq<u8>>, rs: Seq<Option<Message>>) -> bool {
+    ts.len() == pk.len() + 1 && rs.len() == pk.len()
+    && forall|i: int| 0 <= i < pk.len() ==> #[trigger] step_rel(ts[i], pk[i], ts[i + 1], rs[i])
+}
+pub proof fn lemma_run_prefix(ts: Seq<Map<u32, Message>>, rs: Seq<Option<Message>>, ch: u32, c: Command, p: Seq<u8>, j: int)
+    requires 57 < p.len() <= 7609, is_run(ts, packets_of(ch, c, p), rs), 0 <= j < n_cont(p.len() as int),
+    ensures partial(ts[j + 1], ch, c, p, j), others_same(ts[0], ts[j + 1], ch), forall|i: int| 0 <= i <= j ==> rs[i].is_none(),
+    decreases j,
+{
+    let pk = packets_of(ch, c, p);
+    assert(n_cont(p.len() as int) <= 128) by(nonlinear_arith) requires 57 < p.len() <= 7609;
+    if j == 0 {
+        assert(step_rel(ts[0], pk[0], ts[1], rs[0]));
+        assert(pk[0] == init_pkt(ch, c, p));
+        lemma_init_step(ts[0], ch, c, p, ts[1], rs[0]);
+    } else {
+        lemma_run_prefix(ts, rs, ch, c, p, j - 1);
+        assert(step_rel(ts[j], pk[j], ts[j + 1], rs[j]));
+        assert(pk[j] == cont_pkt(ch, j - 1, p));
+        // not the last continuation: more than 59 bytes remain after j-1 full continuation packets
+        assert(p.len() - (57 + 59 * (j - 1)) > 59) by(nonlinear_arith) requires 0 < j < (p.len() - 57 + 58) / 59, 57 < p.len();
+        lemma_cont_step(ts[j], ch, c, p, j - 1, ts[j + 1], rs[j]);
+        lemma_others_trans(ts[0], ts[j], ts[j + 1], ch);
+    }
+}
+// The property: feeding the packets of one message yields exactly one message, on the last packet,
+// with the same channel, command and payload; other channels' entries are untouched.
+pub proof fn lemma_reassembly(ts: Seq<Map<u32, Message>>, rs: Seq<Option<Message>>, ch: u32, c: Command, p: Seq<u8>)
+    requires p.len() <= 7609, is_run(ts, packets_of(ch, c, p), rs),
+    ensures
+        forall|i: int| 0 <= i < rs.len() - 1 ==> rs[i].is_none(),
+        rs.last() matches Some(m) && m.channel == ch && m.command == c && m.payload@ =~= p && m.payload_len == p.len(),
+        others_same(ts[0], ts.last(), ch),
+        p.len() > 57 ==> !ts.last().contains_key(ch),
+{
+    let pk = packets_of(ch, c, p);
+    let n = n_cont(p.len() as int);
+    if p.len() <= 57 {
+        assert(step_rel(ts[0], pk[0], ts[1], rs[0]));
+        assert(pk[0] == init_pkt(ch, c, p));
+        lemma_init_step(ts[0], ch, c, p, ts[1], rs[0]);
+        assert(ts.last() == ts[1]);
+        assert(rs.last() == rs[0]);
+    } else {
+        assert(1 <= n <= 128) by(nonlinear_arith) requires 57 < p.len() <= 7609, n == (p.len() - 57 + 58) / 59;
+        lemma_run_prefix(ts, rs, ch, c, p, n - 1);
+        assert(step_rel(ts[n], pk[n], ts[n + 1], rs[n]));
+        assert(pk[n] == cont_pkt(ch, n - 1, p));
+        assert(p.len() - (57 + 59 * (n - 1)) <= 59) by(nonlinear_arith) requires n == (p.len() - 57 + 58) / 59, 57 < p.len();
+        lemma_cont_step(ts[n], ch, c, p, n - 1, ts[n + 1], rs[n]);
+        lemma_others_trans(ts[0], ts[n], ts[n + 1], ch);
+        assert(ts.last() == ts[n + 1]);
+        assert(rs.last() == rs[n]);
+    }
+}
+
 } // verus!
 fn main(){}
